@@ -96,7 +96,7 @@ func checkC19(rep *vk.Report) {
 		"timers are only visible through their effects: an un-stopped timer that expires unobserved later cannot be seen by this family of technique",
 		"server-side connection goroutines of the loopback server are not counted, only net/http client persistConn loops of the batch's own Transport",
 	}
-	families := []string{"timeout", "cancel", "hedge", "async", "hedge-parent-cancelled", "http", "grpc"}
+	families := []string{"timeout", "cancel", "hedge", "async", "hedge-parent-cancelled", "http", "grpc", "timer-after-outside-cancel"}
 	batches := scale(rep, 42, 2800)
 	srv := newC18Server()
 	defer srv.srv.Close()
@@ -154,6 +154,13 @@ func c19Batch(rep *vk.Report, b int, fam string, srv *c18Server) {
 	case "async":
 		vk.Parallel(n, 16, func(i int) { c15Scenario(scratch, b*100+i) })
 		started = n
+	case "timer-after-outside-cancel":
+		// timers are only visible through their effects: a Timeout cancelled from outside whose timer stays armed calls its
+		// listener (and cancels again) once the limit passes, long after the execution finished
+		vk.Parallel(n/2, 16, func(i int) {
+			c07Outside(rep, b*100+i, vk.Rng(rep.Seed, "C19o", b*100+i), "C19")
+		})
+		started = n / 2
 	case "hedge-parent-cancelled":
 		vk.Parallel(n, 16, func(i int) {
 			r := vk.Rng(rep.Seed, "C19h", b*100+i)
@@ -222,7 +229,10 @@ func c19Batch(rep *vk.Report, b int, fam string, srv *c18Server) {
 				c, cancel := context.WithCancel(context.WithValue(context.Background(), c18CtxKey("req"), "v"))
 				reqCtx = c
 				if i%2 == 0 {
-					reqCtx = customCtx{c} // an application-defined context type: derived contexts watch it with a goroutine
+					// an application-defined context type: contexts derived from it are watched by a goroutine until released
+					cc, ccancel := newCustomCtx(context.WithValue(context.Background(), c18CtxKey("req"), "v"))
+					reqCtx = cc
+					cancel = ccancel
 				}
 				mu.Lock()
 				keep = append(keep, cancel)
@@ -377,5 +387,27 @@ func asExceeded(err error, xe *retrypolicy.ExceededError) bool {
 
 var _ = timeout.ErrExceeded
 
-// customCtx is an application-defined context type (delegating to a standard one).
-type customCtx struct{ context.Context }
+// customCtx is an application-defined context type with its own Done channel: contexts derived from it by the standard
+// library are watched by a goroutine (context.propagateCancel) until they are cancelled.
+type customCtx struct {
+	parent context.Context
+	done   chan struct{}
+	once   sync.Once
+}
+
+func newCustomCtx(parent context.Context) (*customCtx, context.CancelFunc) {
+	c := &customCtx{parent: parent, done: make(chan struct{})}
+	return c, func() { c.once.Do(func() { close(c.done) }) }
+}
+
+func (c *customCtx) Deadline() (time.Time, bool) { return c.parent.Deadline() }
+func (c *customCtx) Done() <-chan struct{}       { return c.done }
+func (c *customCtx) Value(k any) any             { return c.parent.Value(k) }
+func (c *customCtx) Err() error {
+	select {
+	case <-c.done:
+		return context.Canceled
+	default:
+		return nil
+	}
+}
